@@ -21,12 +21,12 @@ def mc_cfg(name, front, N, I, V, ints, maxt, ops, vals='no', reps=0, H='H6', R='
     return p
 
 
-def trace_cfg(front, dev=None):
-    p = os.path.join(tlc.BUILD, 'NdnFibTrace-%s.cfg' % front)
+def trace_cfg(front, dev=None, max_ints=12):
+    p = os.path.join(tlc.BUILD, 'NdnFibTrace-%s%s.cfg' % (front, '' if max_ints == 12 else '-%d' % max_ints))
     tlc.write_cfg(p, spec='TSpec',
                   constants={'Front': '"%s"' % ('v2' if front == 'dispatcher' else front), 'Names': '<- TrNames', 'Handlers': '<- TrHandlers',
-                             'IntTemplates': '<- TrNone', 'MaxInts': 12, 'MaxT': 100000, 'MaxOps': 64,
-                             'MaxReplies': 64, 'Verdicts': '<- TrVerdicts', 'Vals': '<- TrNone',
+                             'IntTemplates': '<- TrNone', 'MaxInts': max_ints, 'MaxT': 100000, 'MaxOps': 64,
+                             'MaxReplies': 64 if max_ints == 12 else 4 * max_ints, 'Verdicts': '<- TrVerdicts', 'Vals': '<- TrNone',
                              'Reprs': '<- TrReprs', 'Envs': '<- TrEnvs', 'Junk': '<- TrJunk'},
                   invariants=['TypeOK', 'AtMostOnce', 'RightHandler', 'IntGate', 'ReplyTruthful', 'TokenEcho'],
                   constraints=['Mark'], postcondition='Post')
@@ -141,11 +141,11 @@ NAMES = [[], ['a'], ['a', 'b'], ['a', 'b', 'c'], ['a', 'c'], ['b'], ['a', 'b', '
 REPRS = ['uri', 'strlist', 'byteslist', 'bytearraylist', 'memviewlist', 'wire', 'wirebuf', 'mutbuf', 'tuple', 'iter']
 
 
-def random_schedule(rng, front, n_events, weights=None, junk=None, max_ints=10, names=None):
+def random_schedule(rng, front, n_events, weights=None, junk=None, max_ints=10, names=None, verdicts=None, p_params=0.5, p_val=0.6, p_dig=0.75):
     w = dict(Attach=4, AttachDup=1, Detach=2, RecvInterest=8, IntValFinish=5, Reply=4, Tick=3, Shutdown=0.15, Connect=2, RecvJunk=1)
     if weights:
         w.update(weights)
-    verdicts = ['PASS', 'PASS', 'FAIL', 'TIMEOUT', 'SILENCE', 'BYPASS', 'RAISE'] if front == 'v2' else ['T', 'T', 'F', 'RAISE']
+    verdicts = verdicts or (['PASS', 'PASS', 'FAIL', 'TIMEOUT', 'SILENCE', 'BYPASS', 'RAISE'] if front == 'v2' else ['T', 'T', 'F', 'RAISE'])
     names = names or NAMES
     run = fibkit.FibRun(front)
     evs = []
@@ -174,12 +174,12 @@ def random_schedule(rng, front, n_events, weights=None, junk=None, max_ints=10, 
                 choices.append('Connect')
             if pend:
                 choices.append('IntValFinish')
-            if front == 'v2' and run.replyfn and len(run.rets) < 60:
+            if front == 'v2' and run.replyfn and len(run.rets) < (60 if max_ints <= 12 else 3 * max_ints):
                 choices.append('Reply')
             a = rng.choices(choices, [w.get(c, 1) for c in choices])[0]
             if a == 'Attach':
                 n = rng.choice(free)
-                emit({'a': a, 'n': n, 'h': ops + 1, 'val': rng.random() < 0.6, 'repr': rng.choice(REPRS)})
+                emit({'a': a, 'n': n, 'h': ops + 1, 'val': rng.random() < p_val, 'repr': rng.choice(REPRS)})
                 attached.add(tuple(n)); ops += 1
             elif a == 'AttachDup':
                 n = list(rng.choice(sorted(attached)))
@@ -190,10 +190,10 @@ def random_schedule(rng, front, n_events, weights=None, junk=None, max_ints=10, 
                 emit({'a': a, 'n': n, 'repr': rng.choice(REPRS)})
                 attached.discard(tuple(n)); ops += 1
             elif a == 'RecvInterest':
-                params = rng.random() < 0.5
+                params = rng.random() < p_params
                 signed = (params and rng.random() < 0.5) or (not params and rng.random() < 0.08)
                 it = {'name': rng.choice(NAMES[1:]), 'params': params, 'pe': params and rng.random() < 0.3, 'signed': signed,
-                      'digOk': (rng.random() < 0.75) if params else not signed,
+                      'digOk': (rng.random() < p_dig) if params else not signed,
                       'tok': rng.choice([0, 0, 1, 2, 3, 4, 5]), 'life': rng.choice([0, 1, 1, 2, 3, 400])}
                 env = rng.choice(['lp', 'lph', 'lpo']) if it['tok'] else rng.choice(['bare', 'lp', 'lph', 'lpo'])
                 emit({'a': a, 'it': it, 'env': env})
@@ -238,4 +238,24 @@ def stage_c(ctx, front, n, n_events, **kw):
     ctx.traces += len(recs)
     ctx.evaluations += len(recs)
     judge.judge(ctx, 'NdnFibTrace', lambda dev: trace_cfg(front), recs, front, 'fibC-%s-%s' % (ctx.prop, front))
+    return recs
+
+
+def stage_c_long(ctx, front, n, max_ints=100, n_events=600):
+    """Beyond the small scope: a few LONG histories on one application object - dozens of Interests that need validation,
+    most of whose validators fail or raise, dozens of replies of every size class - judged by NdnFibTrace like the others
+    (seeds C04-b1: a counter leaked by every failed validation; C04-b2 / C10-b1: reply sizes)."""
+    recs = []
+    for i in range(n):
+        vs = (['RAISE'] * 6 + ['FAIL', 'TIMEOUT', 'PASS']) if front == 'v2' else (['RAISE'] * 5 + ['F', 'T'])
+        if i % 2:
+            vs = (['PASS'] * 3 + ['FAIL', 'RAISE', 'BYPASS']) if front == 'v2' else ['T', 'T', 'F', 'RAISE']
+        rec = random_schedule(ctx.rng, front, n_events, max_ints=max_ints, verdicts=vs, p_params=0.9, p_val=0.9, p_dig=0.95,
+                              weights=dict(Attach=2, AttachDup=0.5, Detach=0.5, RecvInterest=10, IntValFinish=9, Reply=6, Tick=1,
+                                           Shutdown=0.02, Connect=3, RecvJunk=0.3))
+        recs.append(rec)
+        ctx.nt('Clong' + front + str(i))
+    ctx.traces += len(recs)
+    ctx.evaluations += len(recs)
+    judge.judge(ctx, 'NdnFibTrace', lambda dev: trace_cfg(front, max_ints=max_ints + 8), recs, front, 'fibL-%s-%s' % (ctx.prop, front))
     return recs
